@@ -98,6 +98,9 @@ func driveC07(t *testing.T, out *vEmitter) {
 		// as built by the bearer-token loader: an expiry but no creation time; and the reverse
 		{User: "tok", Email: "tok@example.com", AccessToken: "AT-b", IDToken: "IDT-b", ExpiresOn: &later},
 		{User: "ck", Email: "ck@example.com", CreatedAt: &now},
+		// credentials whose standard base64 needs '+' and '/' (63 and 62 at a sextet boundary), and non-ASCII ones
+		{User: "ab~", Email: "ab?@example.com", Groups: []string{"g~~", "x??"}, PreferredUsername: "o\u2019brien"},
+		{User: "s\u20acren", Email: "\xff\xfe\xfd@example.com", Groups: []string{"\xfb\xff"}, AccessToken: "~~~???"},
 	}
 	configs := [][]options.Header{
 		{{Name: "X-Forwarded-User", Values: []options.HeaderValue{claim("user")}}, {Name: "X-Forwarded-Email", Values: []options.HeaderValue{claim("email")}}},
